@@ -215,7 +215,8 @@ func flipAt(pos int) func([]byte) []byte {
 
 func runVDAF[M, A, AggShare, InputShare, OutShare, PrepShare, PrepState any](
 	p *Plan, run *core.Run, comp string,
-	v vdaf[M, A, AggShare, InputShare, OutShare, PrepShare, PrepState],
+	v vdaf[M, A, AggShare, InputShare, OutShare, PrepShare, PrepState], // the aggregators' and the collector's instance
+	vc vdaf[M, A, AggShare, InputShare, OutShare, PrepShare, PrepState], // the clients' instance (another process: an object of its own)
 	meas func(seed uint64, edge string) M,
 	plain func(accepted []M) A,
 	invalid func(seed uint64) (M, bool), // a measurement outside the valid set, if the type has one
@@ -255,7 +256,7 @@ func runVDAF[M, A, AggShare, InputShare, OutShare, PrepShare, PrepState any](
 		var pub count.PublicShare
 		var inputs []InputShare
 		var err error
-		pan, pv, stk := core.Try(func() { pub, inputs, err = v.Shard(m, &nonce, randb) })
+		pan, pv, stk := core.Try(func() { pub, inputs, err = vc.Shard(m, &nonce, randb) })
 		if pan {
 			run.Violate(comp+".Shard", core.PanicClass(pv), "report %d (measurement outside the valid set: %v): %s at %s", ri, badMeas, pv, stk)
 			return
@@ -497,6 +498,24 @@ func runVDAF[M, A, AggShare, InputShare, OutShare, PrepShare, PrepState any](
 		run.Violate(comp+".Unshard", "aggregate-differs-from-true-aggregate", "%d accepted reports over %d aggregators: got %v, true aggregate %v", len(accepted), shares, *got, want)
 		return
 	}
+	// the same instance collects a second, empty batch: the aggregate is the aggregate of nothing,
+	// and what was handed out for the first batch stays what it was
+	firstCopy := fmt.Sprint(*got)
+	empty := make([]AggShare, shares)
+	for i := range empty {
+		empty[i] = v.AggregateInit()
+	}
+	if got0, err0 := v.Unshard(empty, 0); err0 == nil {
+		run.Fault("history:second-batch-on-the-same-instance")
+		if want0 := plain(nil); !reflect.DeepEqual(*got0, want0) {
+			run.Violate(comp+".Unshard", "second-batch-carries-state-of-the-first", "an empty batch collected after a batch of %d reports unshards to %v, expected %v", len(accepted), *got0, want0)
+			return
+		}
+		if fmt.Sprint(*got) != firstCopy {
+			run.Violate(comp+".Unshard", "modifying-a-returned-value-changes-later-results", "the aggregate returned for the first batch changed when a second batch was unsharded")
+			return
+		}
+	}
 	// unsharding twice and marshalling afterwards must give the same answers
 	got2, err := v.Unshard(final, uint(len(accepted)))
 	if err != nil || !reflect.DeepEqual(*got2, want) {
@@ -556,17 +575,29 @@ func exec(planJSON []byte, run *core.Run) {
 		run.Bad("params")
 		return
 	}
+	// the application context reaches the constructor in a buffer that its owner refills afterwards
 	ctx := []byte("circlsim")
+	ctxBuf := append([]byte{}, ctx...)
+	ctx = ctxBuf
+	recycleCtx := func() {
+		core.Recycle(ctxBuf)
+		run.Fault("history:constructor-context-buffer-refilled")
+	}
 	sh := uint8(p.Shares)
 	run.T(p.Type, fmt.Sprint(p.Shares))
 	switch p.Type {
 	case "count":
 		v, err := count.New(sh, ctx)
+		vc, errc := count.New(sh, append([]byte{}, ctxBuf...))
+		if err == nil && errc != nil {
+			panic("HARNESS: the client-side instance could not be built: " + errc.Error())
+		}
 		if err != nil {
 			run.Violate("prio3/count.New", "error-on-valid-parameters", "%v", err)
 			return
 		}
-		runVDAF[bool, uint64, count.AggShare, count.InputShare, count.OutShare, count.PrepShare, count.PrepState](&p, run, "prio3/count", v,
+		recycleCtx()
+		runVDAF[bool, uint64, count.AggShare, count.InputShare, count.OutShare, count.PrepShare, count.PrepState](&p, run, "prio3/count", v, vc,
 			func(s uint64, e string) bool { return e == "max" || (e == "" && s&1 == 1) },
 			func(a []bool) uint64 {
 				var n uint64
@@ -584,6 +615,10 @@ func exec(planJSON []byte, run *core.Run) {
 			return
 		}
 		v, err := sum.New(sh, p.A, ctx)
+		vc, errc := sum.New(sh, p.A, append([]byte{}, ctxBuf...))
+		if err == nil && errc != nil {
+			panic("HARNESS: the client-side instance could not be built: " + errc.Error())
+		}
 		if err != nil {
 			run.Violate("prio3/sum.New", "error-on-valid-parameters", "max=%d: %v", p.A, err)
 			return
@@ -592,7 +627,8 @@ func exec(planJSON []byte, run *core.Run) {
 		if p.A > 0 && uint64(len(p.Reports)) > (fieldP64-1)/p.A {
 			p.Reports = p.Reports[:1]
 		}
-		runVDAF[uint64, uint64, sum.AggShare, sum.InputShare, sum.OutShare, sum.PrepShare, sum.PrepState](&p, run, "prio3/sum", v,
+		recycleCtx()
+		runVDAF[uint64, uint64, sum.AggShare, sum.InputShare, sum.OutShare, sum.PrepShare, sum.PrepState](&p, run, "prio3/sum", v, vc,
 			func(s uint64, e string) uint64 {
 				switch e {
 				case "zero":
@@ -625,11 +661,16 @@ func exec(planJSON []byte, run *core.Run) {
 			return
 		}
 		v, err := sumvec.New(sh, l, b, c, ctx)
+		vc, errc := sumvec.New(sh, l, b, c, append([]byte{}, ctxBuf...))
+		if err == nil && errc != nil {
+			panic("HARNESS: the client-side instance could not be built: " + errc.Error())
+		}
 		if err != nil {
 			run.Violate("prio3/sumvec.New", "error-on-valid-parameters", "length=%d bits=%d chunk=%d: %v", l, b, c, err)
 			return
 		}
-		runVDAF[[]uint64, []uint64, sumvec.AggShare, sumvec.InputShare, sumvec.OutShare, sumvec.PrepShare, sumvec.PrepState](&p, run, "prio3/sumvec", v,
+		recycleCtx()
+		runVDAF[[]uint64, []uint64, sumvec.AggShare, sumvec.InputShare, sumvec.OutShare, sumvec.PrepShare, sumvec.PrepState](&p, run, "prio3/sumvec", v, vc,
 			func(s uint64, e string) []uint64 {
 				r := core.NewPRNG(s)
 				out := make([]uint64, l)
@@ -676,11 +717,16 @@ func exec(planJSON []byte, run *core.Run) {
 			return
 		}
 		v, err := histogram.New(sh, l, c, ctx)
+		vc, errc := histogram.New(sh, l, c, append([]byte{}, ctxBuf...))
+		if err == nil && errc != nil {
+			panic("HARNESS: the client-side instance could not be built: " + errc.Error())
+		}
 		if err != nil {
 			run.Violate("prio3/histogram.New", "error-on-valid-parameters", "length=%d chunk=%d: %v", l, c, err)
 			return
 		}
-		runVDAF[uint64, []uint64, histogram.AggShare, histogram.InputShare, histogram.OutShare, histogram.PrepShare, histogram.PrepState](&p, run, "prio3/histogram", v,
+		recycleCtx()
+		runVDAF[uint64, []uint64, histogram.AggShare, histogram.InputShare, histogram.OutShare, histogram.PrepShare, histogram.PrepState](&p, run, "prio3/histogram", v, vc,
 			func(s uint64, e string) uint64 {
 				switch e {
 				case "zero":
@@ -707,11 +753,16 @@ func exec(planJSON []byte, run *core.Run) {
 			return
 		}
 		v, err := mhcv.New(sh, l, w, c, ctx)
+		vc, errc := mhcv.New(sh, l, w, c, append([]byte{}, ctxBuf...))
+		if err == nil && errc != nil {
+			panic("HARNESS: the client-side instance could not be built: " + errc.Error())
+		}
 		if err != nil {
 			run.Violate("prio3/mhcv.New", "error-on-valid-parameters", "length=%d weight=%d chunk=%d: %v", l, w, c, err)
 			return
 		}
-		runVDAF[[]bool, []uint64, mhcv.AggShare, mhcv.InputShare, mhcv.OutShare, mhcv.PrepShare, mhcv.PrepState](&p, run, "prio3/mhcv", v,
+		recycleCtx()
+		runVDAF[[]bool, []uint64, mhcv.AggShare, mhcv.InputShare, mhcv.OutShare, mhcv.PrepShare, mhcv.PrepState](&p, run, "prio3/mhcv", v, vc,
 			func(s uint64, e string) []bool {
 				r := core.NewPRNG(s)
 				out := make([]bool, l)
